@@ -1048,7 +1048,7 @@ func c08RunJSONOrder(ctx context.Context, c core.Case, p c08Params, r *core.Rec)
 	ds := qsem.Dataset{}
 	ds.G = []qsem.Doc{{"name": "g0", "w": int64(1)}}
 	for k, j := range []any{int64(1), "x", true, map[string]any{"x": int64(1)}, nil, []any{int64(1)}, 2.5} {
-		ds.U = append(ds.U, qsem.Doc{"k": int64(k), "j": j, "g": k % 2 - 1})
+		ds.U = append(ds.U, qsem.Doc{"k": int64(k), "j": j, "g": k%2 - 1})
 	}
 	_, err = qsem.Load(ctx, n, ds)
 	core.Must(err)
